@@ -4,6 +4,7 @@
    the model nor gen/. *)
 From Coq Require Import NArith List Bool.
 Require Import SDS.Model.Mach SDS.Spec.BitSeq SDS.Spec.Utf8 SDS.Check.Common.
+Require SDS.Spec.AddrSpace SDS.gen.MmapCfg SDS.Model.Mmap.   (* qualified: MemoryMap::new on a file of any size in bytes *)
 Require Export SDS.Model.Mapped.   (* the case files name the view types *)
 Import ListNotations.
 Open Scope N_scope.
@@ -33,6 +34,8 @@ Definition vobs : Type := (vtype * N * N * outcome)%type.
 Inductive case :=
 (* MemoryMap::new on a file holding these elements: refused? *)
 | CMap (file : list N) (refused : bool)
+(* MemoryMap::new on a file of nbytes bytes (a structure cut inside an element): refused or not *)
+| CMapBytes (dbg : bool) (nbytes : N) (refused : bool)
 (* views requested on the mapped file *)
 | CViews (dbg : bool) (file : list N) (views : list vobs).
 
@@ -254,6 +257,12 @@ Definition check (c : case) : N :=
   | CMap file refused =>
       code (Bool.eqb (match mm_new file with None => true | Some _ => false end) refused)
            (Bool.eqb (match file with [] => true | _ => false end) refused)
+  | CMapBytes dbg nbytes refused =>
+      let m_ref := match SDS.Model.Mmap.map_new SDS.gen.MmapCfg.cur_cmp (mode_of dbg) SDS.Model.Mmap.ReadOnly (Some nbytes) [] with
+                   | Ok (_, SDS.Model.Mmap.Mapped _) => false
+                   | _ => true
+                   end in
+      code (Bool.eqb m_ref refused) (Bool.eqb ((nbytes =? 0) || negb (nbytes mod 8 =? 0)) refused)
   | CViews dbg file views =>
       code (forallb (model_ok (mode_of dbg) file) views) (forallb (spec_ok file) views)
   end.
@@ -262,6 +271,7 @@ Definition check (c : case) : N :=
 Definition explain (c : case) : list (N * N) :=
   match c with
   | CMap _ _ => []
+  | CMapBytes _ _ _ => []
   | CViews dbg file views =>
       map (fun o => (snd (fst (fst o)), code (model_ok (mode_of dbg) file o) (spec_ok file o))) views
   end.
